@@ -241,8 +241,9 @@ def finish(prop, tier, seed, obs, meta, t0):
         cov['explanation'] = (cov['explanation'] + ' ' if cov['explanation'] else '') + 'Not every obligation discharged on this run (see obligation_list).'
     ev = {'property_id': prop, 'tier': tier, 'seed': seed, 'level': level, 'coverage': cov,
           'assumptions': meta.get('assumptions', []), 'wall_s': round(time.time() - t0, 2), 'violations': len(viol)}
-    os.makedirs(os.path.join(VERIF, 'evidence'), exist_ok=True)
-    json.dump(ev, open(os.path.join(VERIF, 'evidence', prop + '.json'), 'w'), indent=1, default=str)
+    evdir = os.path.join(VERIF, 'build', 'evidence_scratch') if os.environ.get('VERIF_NO_EVIDENCE') else os.path.join(VERIF, 'evidence')   # seed trials must not overwrite the committed evidence
+    os.makedirs(evdir, exist_ok=True)
+    json.dump(ev, open(os.path.join(evdir, prop + '.json'), 'w'), indent=1, default=str)
     print('SUMMARY property=%s tier=%s obligations=%d proved=%d bounded=%d refuted=%d (known %d) undecided=%d wall=%.1fs' % (
         prop, tier, len(obs), len(proved), len(bounded), len(refuted), len(kf), len(undec), time.time() - t0))
     if viol:
